@@ -145,6 +145,30 @@ type memSyncer struct {
 func (m *memSyncer) Write(p []byte) (int, error) { m.mu.Lock(); defer m.mu.Unlock(); return m.b.Write(p) }
 func (m *memSyncer) Sync() error                 { return nil }
 
+// Every NewBrokerContext leaves a goroutine with an unstoppable 24 h ticker behind, so contexts
+// are cached per configuration and reused as long as the previous run left them clean (which
+// the checks verify after every run: no registrations, gauges at zero).
+var ctxCache = map[string]*BrokerContext{}
+
+func cfgKey(sc *scenario) string {
+	b, _ := json.Marshal([]any{sc.Bridges, sc.Allowed, sc.Presumed})
+	return string(b)
+}
+
+func cachedContext(sc *scenario) (*BrokerContext, error) {
+	k := cfgKey(sc)
+	if c, ok := ctxCache[k]; ok {
+		return c, nil
+	}
+	c, err := newContext(sc, io.Discard)
+	if err == nil {
+		ctxCache[k] = c
+	}
+	return c, err
+}
+
+func dropContext(sc *scenario) { delete(ctxCache, cfgKey(sc)) }
+
 func newContext(sc *scenario, metricsOut io.Writer) (*BrokerContext, error) {
 	ctx := NewBrokerContext(log.New(metricsOut, "", 0))
 	// as main() does with -ip-count-log: the distinct-IP recorder is part of the poll path
@@ -439,17 +463,59 @@ func watchdog(sc *scenario) (stop func()) {
 		select {
 		case <-done:
 		case <-time.After(30 * time.Second):
-			buf := make([]byte, 1<<21)
+			buf := make([]byte, 1<<28)
 			buf = buf[:runtime.Stack(buf, true)]
 			var rel []string
-			for _, g := range strings.Split(string(buf), "\n\n") {
+			// the goroutines of the wedged bubble: those tagged with the bubble id of the goroutine
+			// that sits in synctest.Run
+			all := strings.Split(string(buf), "\n\n")
+			bubble := ""
+			for _, g := range all {
+				if strings.Contains(g, "internal/synctest.Run") {
+					if i := strings.Index(g, "synctest bubble "); i >= 0 {
+						bubble = strings.SplitN(g[i:], "]", 2)[0]
+					}
+				}
+			}
+			if bubble != "" {
+				for _, g := range all {
+					if strings.Contains(g, bubble+"]") && !strings.Contains(g, "internal/synctest.Run") {
+						rel = append(rel, g)
+					}
+				}
+			}
+			for _, g := range all {
+				if bubble != "" {
+					break
+				}
 				if (strings.Contains(g, "/broker.(*") || strings.Contains(g, "/broker.proxy") || strings.Contains(g, "/broker.client")) && strings.Contains(g, "sync.(*Mutex).Lock") || strings.Contains(g, "chan send") && strings.Contains(g, "/broker.(*IPC)") {
 					rel = append(rel, g)
 				}
 			}
 			st := strings.Join(rel, "\n\n")
-			if len(st) > 5000 {
-				st = st[:5000]
+			if len(rel) == 0 {
+				st = "(no goroutine blocked on the broker's lock; all stacks follow)\n" + string(buf)
+			}
+			if len(st) > 9000 {
+				st = st[:9000]
+			}
+			// A lock-held deadlock shows as a goroutine of the bubble waiting for a sync.Mutex (that is
+			// what keeps the bubble from being idle). If every goroutine of the bubble is durably
+			// blocked and the fake clock still does not advance, the fault is not the broker's: that is
+			// reported as an infrastructure problem (exit 3), never as a violation.
+			lockWait := false
+			for _, g := range rel {
+				if strings.Contains(g, "sync.Mutex.Lock") || strings.Contains(g, "sync.(*Mutex).Lock") || strings.Contains(g, "semacquire") || strings.Contains(g, "sync.RWMutex") {
+					lockWait = true
+				}
+			}
+			if !lockWait {
+				fmt.Printf("HARNESS-WEDGE: the fake clock stopped advancing although no goroutine of the bubble waits for a lock (runtime/harness issue, not a verdict). Goroutines:\n%s\n", st)
+				if wedgeUnit != nil {
+					wedgeUnit.Add("inconclusive", 1)
+					wedgeUnit.Flush()
+				}
+				os.Exit(3)
 			}
 			if wedgeUnit != nil {
 				fmt.Println(wedgeUnit.Fail(sc, "scenario made no progress for 30 s of real time on the fake clock: a request is blocked while holding (or waiting for) the broker's lock, so no request can complete any more. Goroutines:\n%s", st))
@@ -530,6 +596,9 @@ func runScenario(t *testing.T, ctx *BrokerContext, sc *scenario, extra func(ctx 
 			for n, nat := range []string{"unknown", "restricted", "unrestricted"} {
 				nat := nat
 				ev := event{Kind: "client", Offer: "fresh-" + nat, NAT: &nat, Door: "ipc"}
+				if len(sc.Bridges) > 0 {
+					ev.FP = sc.Bridges[0].FP // the default bridge need not be in a generated list
+				}
 				var r result
 				done := make(chan struct{})
 				go func() { doClient(ctx, mux, &ev, &r, now); close(done) }()
